@@ -92,6 +92,34 @@ NESTED_EVENTS = [
 ]
 
 
+def Cc(n):
+    return ["col", "C", n]
+
+
+# constants stored in columns by one verb and used by the next: the SQL text of the second
+# verb inlines the literal of the first (depth 2)
+CHAIN_FIRST = [
+    ["mutate", [["c1", L(-1)], ["c3", L(-0.5)], ["c5", L(False)], ["c6", L(None)], ["cq", L("'")], ["cp", L("%")], ["cm", L("--")]]],
+    ["mutate", [["c1", ["neg", L(7)]], ["c3", ["neg", L(0.5)]], ["c5", L(True)], ["c6", L(None)], ["cq", L("\\")], ["cp", L("_")], ["cm", L("/*")]]],
+]
+CHAIN_SECOND = [
+    ["mutate", [["d1", ["neg", Cc("c1")]], ["d2", ["sub", Cc("c1"), Cc("c1")]], ["d3", ["neg", Cc("c3")]], ["d4", ["neg", ["neg", Cc("c1")]]],
+                ["d5", ["invert", Cc("c5")]], ["d6", ["sub", L(0), Cc("c1")]], ["d7", ["add", Cc("cq"), Cc("cq")]], ["d8", ["add", Cc("cm"), x]],
+                ["d9", ["mul", ["neg", Cc("c1")], ["neg", Cc("c3")]]]]],
+    # (constant columns as LIKE patterns are not used here: a constant column given for a constant
+    # parameter is the known finding F-C19-const-parameter-nonliteral)
+    ["mutate", [["e3", ["eq", x, Cc("cq")]], ["e5", ["fill_null", x, Cc("cm")]], ["e6", ["add", ["neg", Cc("c1")], k]],
+                ["e7", ["is_in", x, Cc("cq"), Cc("cp")]], ["e8", ["case", [[["eq", x, Cc("cp")], Cc("cm")]], Cc("cq")]]]],
+    ["filter", [["lt", ["neg", Cc("c1")], L(9)]]],
+    ["filter", [["eq", x, Cc("cq")]]],
+    ["filter", [["ne", ["add", x, Cc("cm")], Cc("cm")]]],
+]
+
+
+def chain_alphabet(st, hist):
+    return CHAIN_FIRST if len(hist) <= 1 else CHAIN_SECOND
+
+
 def check_structure(step):
     """the generated statement keeps its structure: exactly one statement, same columns and row count"""
     vs = []
@@ -146,11 +174,18 @@ def tasks(tier):
     n = len(strings(tier))
     out = [{"range": [i, min(n, i + 12)]} for i in range(0, n, 12)]
     out.append({"consts": True})
+    out.append({"chain": True})
     return out
 
 
 def run_task(task, tier):
     w = world(tier)
+    if task.get("chain"):
+        res = base.run_history_task(lambda ww: X.Explorer(ww, alphabet=chain_alphabet, checks=[check_structure], depth=2, oracle="both", names="list"),
+                                    w, [["source", "T"]], None, minimise=False, params={"tier": tier, "chain": True}, classify=classify)
+        for v in res["violations"]:
+            v["world"] = _shrink(v)
+        return res
     if task.get("consts"):
         events = CONST_EVENTS + NESTED_EVENTS
     else:
@@ -175,6 +210,8 @@ def recheck(rec):
     tier = (rec.get("params") or {}).get("tier", "quick")
     rec = dict(rec)
     rec["world"] = world(tier)
+    if (rec.get("params") or {}).get("chain"):
+        return base.recheck_history(lambda ww: X.Explorer(ww, alphabet=chain_alphabet, checks=[check_structure], depth=2, oracle="both", names="list"), rec)
     return base.recheck_history(lambda ww: make_explorer(ww, [ev]), rec)
 
 
@@ -189,6 +226,7 @@ def describe(tier):
                       "replace_all(lit, 'Z')", "replace_all('a', lit)", "when(x == lit).then(lit)", "x.map({lit: 'hit'})", "mutate(c=lit)", "fill_null(lit)",
                       "str.len(x + lit)", "filter(x == lit)", "filter(starts_with)"],
         "constants": "-1, 0, -0.5, True, False, None as constants and inside arithmetic / comparisons / is_in / case",
+        "chained": "constants (-1, -7, -0.5, False, None, quote, backslash, %, _, --, /*) stored in columns by one mutate and used by the next verb (negation, subtraction, LIKE patterns, concatenation, comparison), depth 2",
         "nested": "concatenations / comparisons of two string-function results (slice, replace_all, fill_null, coalesce, case) on the metacharacter data",
         "pairs": "every (literal, data string) pair for every position",
         "backends": ["polars", "sqlite"],
